@@ -77,7 +77,10 @@ obligations! {
     O29 = "C02::unreachable_object_dropped",
     O30 = "C02::unreachable_object_finalized_iff_due",
     O31 = "C02::allocated_bytes_zero_when_nothing_remains",
-    O32 = "C02::collection_reached_fixpoint"
+    O32 = "C02::collection_reached_fixpoint",
+    OFinDue = "C05::dropped_object_was_finalized_first_if_due",
+    OFresh = "C07::after_the_caught_panic_new_objects_are_not_marked_finalized",
+    OUnwrap = "C07::after_the_caught_panic_try_unwrap_of_a_fresh_unique_pointer_succeeds"
 }
 
 pub(crate) const S0: u8 = 0;
@@ -142,6 +145,7 @@ pub(crate) fn set_fin(i: usize) {
     let p = ccp::reg(i);
     let (t, c) = ccp::words_of(p);
     ccp::set_words_of(p, t, c | 0x4000);
+    unsafe { PREFIN[i] = true };
 }
 /// history: stale tracing counter on an UNBUFFERED node (classes 0, 1, count-1, count, MAX)
 pub(crate) fn stale(i: usize, class: u8) {
@@ -276,6 +280,8 @@ fn ghost_cc(i: usize, n: usize) -> u16 {
     k
 }
 pub(crate) static mut MOVED: [bool; MAX_OBJ] = [false; MAX_OBJ];
+/// history given to the scenario: object i was already finalized before the script started
+pub(crate) static mut PREFIN: [bool; MAX_OBJ] = [false; MAX_OBJ];
 fn g_moved(i: usize) -> bool {
     unsafe { MOVED[i] }
 }
@@ -326,6 +332,11 @@ pub(crate) fn check_safety(n: usize, live0: [bool; MAX_OBJ], panic_free: bool) {
         }
         if live0[i] {
             soft(gs.finalize_calls[i] == 0, Ob::O11);
+        }
+        // C04/C02/C05: in panic-free runs a value is never dropped without its due finalizer having run first
+        #[cfg(feature = "finalization")]
+        if panic_free && gs.drop_calls[i] == 1 && !unsafe { PREFIN[i] } {
+            soft(gs.finalize_calls[i] == 1, Ob::OFinDue);
         }
         i += 1;
     }
@@ -399,4 +410,21 @@ pub(crate) fn check_execs(expect: usize) {
 }
 pub(crate) fn check_later_collection(expect: usize) {
     soft(execs() == expect && !caught(), Ob::OLater);
+}
+
+/// C07 continuation: the collector is usable after the caught panic — an object created now (outside
+/// every finalizer) is not born "already finalized", and try_unwrap of a fresh unique pointer succeeds
+pub(crate) fn check_usable() {
+    let c = Cc::new(Leaf(1));
+    #[cfg(feature = "finalization")]
+    soft(!c.already_finalized(), Ob::OFresh);
+    match c.try_unwrap() {
+        Ok(v) => {
+            soft(v.0 == 1, Ob::OUnwrap);
+        }
+        Err(c) => {
+            soft(false, Ob::OUnwrap);
+            core::mem::forget(c);
+        }
+    }
 }
